@@ -224,6 +224,7 @@ func c11Run(c *core.Ctx, raw json.RawMessage) {
 	}
 	str.SetReadTimeout(timeout)
 	str.SetReapThreshold(sc.ReapThreshold)
+	str.SetNoVerifyDB(true) // as rqlited runs it (the post-reap integrity check is a test-coverage knob)
 	live, err := db.Open(filepath.Join(c.Dir, "live.db"), false, true)
 	if err != nil {
 		s.Close()
